@@ -1,11 +1,14 @@
 (* C15 -- extension operators only add well-placed cells and never touch observed data.
 
    Model: Model/Extend.v (a triangle is its sorted cell list; any size).  Month arithmetic is
-   Calendar.addm / lag_months (= add_months / dev_lag_months on month-aligned dates: C12); every
-   month-unit statement carries the explicit hypotheses
-     aligned c          period_end and evaluation_date are month ends with ids in 0..1571
-     lag_in_range c l   month_id (period_end) + l stays in 0..1571
-   (the calendar facts behind them are kernel-computed over that range, Proofs/AccessorsCal.v).
+   Calendar.addm / lag_months.  Tie to the source: these equal bermuda's float-based add_months /
+   dev_lag_months only where the C12 bridge theorems say so (month-aligned dates with results in
+   1970-2100; before 1970 see known finding F10), and the tie of this property compares the real
+   operators with the model on generated triangles inside that range.
+   Month-unit statements hold for EVERY date of Python's range (year >= 1); their explicit hypotheses
+     aligned c          period_end and evaluation_date are month ends with month ids >= MINID
+     lag_in_range c l   MINID <= month_id (period_end) + l        (MINID = -23628 = 0001-01)
+   rest on the unbounded, axiom-free calendar facts of Proofs/CalendarP.v (via Proofs/AccessorsCal.v).
    Day-unit statements need no calendar hypothesis.
    [occupied t c]: some cell of t has c's slice (metadata, Python ==), period and evaluation date.
    make_right_triangle / make_right_diagonal return ONLY new cells; fill_forward_gaps / backfill return
@@ -22,7 +25,7 @@
    candidate-finding note), and the theorem gives the weaker bound lag < last + res. *)
 From Coq Require Import ZArith List Bool Lia.
 From Bermuda Require Import Lib.Calendar Model.Base Model.Accessors Model.Extend
-  Proofs.Accessors Proofs.AccessorsTax Proofs.AccessorsCal Proofs.Extend.
+  Proofs.Accessors Proofs.AccessorsTax Proofs.CalendarP Proofs.AccessorsCal Proofs.Extend.
 Import ListNotations.
 Open Scope Z_scope.
 
@@ -200,7 +203,7 @@ Print Assumptions C15_backfill_values.
 
 (* a backfilled cell lies strictly before the cell it extends and has the stated lag *)
 Theorem C15_backfill_before : forall c k res,
-  aligned c -> 0 < res -> 0 < k -> 0 <= month_id (pe c) + (mlag c - k * res) ->
+  aligned c -> 0 < res -> 0 < k -> MINID <= month_id (pe c) + (mlag c - k * res) ->
   addm (pe c) (mlag c - k * res) < ev c /\
   lag_months (pe c) (addm (pe c) (mlag c - k * res)) = mlag c - k * res.
 Proof. exact back_before. Qed.
@@ -241,13 +244,13 @@ Example C15_nonvacuous_unit_ok :
 Proof.
   intros s e l Hs He Hl. vm_compute in Hs. destruct Hs as [<-|[]].
   vm_compute in He. vm_compute in Hl.
-  assert (HA : forall a b, 0 <= a <= MAXID -> 0 <= b <= MAXID -> forall c,
+  assert (HA : forall a b, MINID <= a -> MINID <= b -> forall c,
              pe c = month_end a -> ev c = month_end b -> aligned c)
     by (intros a b Ha Hb c H1 H2; exists a, b; auto).
-  assert (HR : forall c x, (0 <=? month_id (pe c) + x) && (month_id (pe c) + x <=? MAXID) = true -> lag_in_range c x)
-    by (intros c x H; unfold lag_in_range; apply andb_true_iff in H; lia).
+  assert (HR : forall c x, (MINID <=? month_id (pe c) + x) = true -> lag_in_range c x)
+    by (intros c x H; unfold lag_in_range; lia).
   destruct He as [<-|[<-|[<-|[]]]]; destruct Hl as [<-|[<-|[<-|[]]]]; (split; [|apply HR; vm_compute; reflexivity]).
-  1-3: apply (HA 602 608); try (unfold MAXID; lia); vm_compute; reflexivity.
-  1-3: apply (HA 605 608); try (unfold MAXID; lia); vm_compute; reflexivity.
-  1-3: apply (HA 608 608); try (unfold MAXID; lia); vm_compute; reflexivity.
+  1-3: apply (HA 602 608); try (unfold MINID; lia); vm_compute; reflexivity.
+  1-3: apply (HA 605 608); try (unfold MINID; lia); vm_compute; reflexivity.
+  1-3: apply (HA 608 608); try (unfold MINID; lia); vm_compute; reflexivity.
 Qed.
